@@ -1,41 +1,69 @@
 #!/venv/bin/python
-"""Re-computes, for every seeded change under /verif/seeded, which checks detect it (all 20 checks against a scratch copy with the patch)."""
-import json, os, shutil, subprocess, tempfile, re, sys
-from concurrent.futures import ThreadPoolExecutor
-ROOT = "/verif"
+"""Re-computes, for every seeded change under <verif>/seeded, which checks detect it: all 20 rule modules, in-process, against a scratch copy of <repo>/Pyro5 with the
+patch applied (one shared analysis context per seed; the verdict per property is what `bin/check <P> --tier quick` gives: exit 1 iff a violated instance is not a known finding,
+exit 2 on AnalysisError).   seed_matrix.py [--only <substring>] [--no-write]"""
+import json, os, shutil, subprocess, tempfile, sys
+from concurrent.futures import ProcessPoolExecutor
+ROOT = os.path.dirname(os.path.dirname(os.path.abspath(__file__)))
+REPO = os.environ.get("VERIF_REPO", "/repo")
+sys.path.insert(0, ROOT)
 PROPS = ["C%02d" % i for i in range(1, 21)]
 
 
 def one(sid):
+    from verif import cli, report
+    from verif.engine.model import AnalysisError
+    from verif.engine.context import Ctx
     dst = os.path.join(ROOT, "seeded", sid)
     d = tempfile.mkdtemp(prefix="seedchk.")
     try:
-        shutil.copytree("/repo/Pyro5", d + "/Pyro5")
+        shutil.copytree(os.path.join(REPO, "Pyro5"), d + "/Pyro5", ignore=shutil.ignore_patterns("__pycache__"))
         r = subprocess.run(["patch", "-p1", "-s", "-i", dst + "/patch.diff"], cwd=d, capture_output=True, text=True)
         if r.returncode != 0:
             return sid, {"_error": ["patch does not apply to the current /repo tree"]}
+        known = report.load_known_findings()
         detected = {}
+        try:
+            ctx = Ctx(d)
+        except AnalysisError as x:
+            return sid, {p: ["ANALYSIS-ERROR: %s" % str(x)[:200]] for p in PROPS}
         for p2 in PROPS:
-            rr = subprocess.run([ROOT + "/bin/check", p2, "--no-evidence", "--no-selftest", "--repo", d], capture_output=True, text=True)
-            keys = re.findall(r"^  \S+\s+(C\d\d-R\w+\|\S+)", rr.stdout, re.M)
-            if rr.returncode == 1:
-                detected[p2] = keys[:6]
-            elif rr.returncode == 2:
-                detected[p2] = ["ANALYSIS-ERROR: " + rr.stdout.strip()[:200]]
+            try:
+                R, _, _ = cli.run_property(p2, d, "quick", ctx)
+            except AnalysisError as x:
+                detected[p2] = ["ANALYSIS-ERROR: %s" % str(x)[:200]]
+                continue
+            except Exception as x:
+                detected[p2] = ["ANALYSIS-ERROR: internal error %r" % (x,)]
+                continue
+            new, kn, stale = cli.classify(p2, R, known)
+            if new:
+                detected[p2] = [o.key for o in new][:6]
         return sid, detected
     finally:
         shutil.rmtree(d, ignore_errors=True)
 
 
-sids = sorted(x for x in os.listdir(os.path.join(ROOT, "seeded")) if os.path.isdir(os.path.join(ROOT, "seeded", x)))
-index = {}
-with ThreadPoolExecutor(max_workers=12) as ex:
-    for sid, det in ex.map(one, sids):
-        mp = os.path.join(ROOT, "seeded", sid, "meta.json")
-        meta = json.load(open(mp))
-        meta["detected_by"] = det
-        meta["detected_by_own_property_check"] = meta["property"] in det
-        json.dump(meta, open(mp, "w"), indent=1)
-        index[sid] = sorted(det)
-        print(sid, "own" if meta["detected_by_own_property_check"] else "MISSED", {k: v[:1] for k, v in det.items()})
-json.dump(index, open(os.path.join(ROOT, "seeded", "INDEX.json"), "w"), indent=1)
+def main():
+    argv = sys.argv[1:]
+    only = argv[argv.index("--only") + 1] if "--only" in argv else None
+    write = "--no-write" not in argv
+    sids = sorted(x for x in os.listdir(os.path.join(ROOT, "seeded")) if os.path.isdir(os.path.join(ROOT, "seeded", x)) and (only is None or only in x))
+    index = {}
+    with ProcessPoolExecutor(max_workers=16) as ex:
+        for sid, det in ex.map(one, sids, chunksize=1):
+            mp = os.path.join(ROOT, "seeded", sid, "meta.json")
+            meta = json.load(open(mp))
+            own = meta["property"] in det and not det[meta["property"]][0].startswith("ANALYSIS-ERROR")
+            if write:
+                meta["detected_by"] = det
+                meta["detected_by_own_property_check"] = own
+                json.dump(meta, open(mp, "w"), indent=1)
+            index[sid] = sorted(det)
+            print(sid, "own" if own else "MISSED", {k: v[:1] for k, v in det.items()}, flush=True)
+    if write and only is None:
+        json.dump(index, open(os.path.join(ROOT, "seeded", "INDEX.json"), "w"), indent=1)
+
+
+if __name__ == "__main__":
+    main()
